@@ -26,7 +26,9 @@ def row_for(F, s):
     k = s.kind
     if f == "multiboot2_common::DynSizedStructure::ref_from_bytes" and k == "rawderef":
         return ("U1/U2", "import", "C14")
-    if f == "multiboot2_common::DynSizedStructure::ref_from_ptr" and (k == "rawderef" or w == "core::slice::raw::from_raw_parts"):
+    if f == "multiboot2_common::DynSizedStructure::ref_from_ptr" and (k == "rawderef" or w == "core::slice::raw::from_raw_parts" or
+                                                                       w in ("core::ptr::non_null::NonNull::<T>::as_ref",)):
+        # reading the header through the caller-supplied pointer: `&*ptr.as_ptr()` or `ptr.as_ref()` (the same operation)
         return ("U3", "contract", "ref_from_ptr")
     if f.endswith("::load") and k == "unsafecall" and w.endswith("DynSizedStructure::<H>::ref_from_ptr"):
         return ("U3", "contract", "load")
